@@ -529,6 +529,59 @@ def determinism_audit(sim, engine, tier, seed, outdir, sample_mod, extra=None,
 
 
 # ------------------------------------------------------------------ chan -----
+REJECT_RX = None
+
+
+def rejection_reach(sim, batch_dir, files):
+    """Which rejecting branches (return false / -1 / error Status) of the
+    anchored decoder files were taken at least once under faults."""
+    import re
+    import struct
+    global REJECT_RX
+    if REJECT_RX is None:
+        REJECT_RX = re.compile(r'^\s*return\s+(false|-1|nullptr|Status\(|Error|ErrorStatus)')
+    path = os.path.join(batch_dir, 'covered_pcs.bin')
+    if not os.path.exists(path):
+        return None
+    data = open(path, 'rb').read()
+    pcs = [struct.unpack_from('<Q', data, i)[0] for i in range(0, len(data) - 7, 8)]
+    if not pcs:
+        return None
+    r = subprocess.run([SYMBOLIZER, '--obj=' + sim, '-s', '-i', '--no-demangle'],
+                       input='\n'.join('0x%x' % p for p in pcs), capture_output=True,
+                       text=True)
+    covered = set()
+    for line in r.stdout.split('\n'):
+        m = re.match(r'^([^\s:]+):(\d+):\d+$', line.strip())
+        if m:
+            covered.add((m.group(1), int(m.group(2))))
+    sites = []
+    src = os.path.join(REPO, 'src', 'draco')
+    for rel in files:
+        base = os.path.join(src, rel)
+        paths = []
+        if os.path.isdir(base):
+            for root, _, fns in os.walk(base):
+                for fn in fns:
+                    if (fn.endswith('.h') or fn.endswith('.cc')) and 'decod' in fn \
+                            and not fn.endswith('_test.cc'):
+                        paths.append(os.path.join(root, fn))
+        elif os.path.exists(base):
+            paths.append(base)
+        for pth in paths:
+            for no, text in enumerate(open(pth, errors='replace'), 1):
+                if REJECT_RX.match(text):
+                    sites.append((os.path.basename(pth), no))
+    sites = sorted(set(sites))
+    reached = [s for s in sites if s in covered]
+    missed = [s for s in sites if s not in covered]
+    return dict(rejection_sites=len(sites), reached=len(reached),
+                never_taken=['%s:%d' % s for s in missed][:80],
+                note='a rejecting branch that no fault has ever taken is a guard this '
+                     'check could not notice losing; edges are basic-block starts '
+                     'symbolised to file:line (inlined copies count for their line)')
+
+
 def chan_coverage(summary, sim, samples, prop):
     st = summary['stats']
     kinds = {k: dict(planned=v[0], applied=v[1], effective=v[2])
@@ -783,6 +836,19 @@ def check_chan(prop, tier, seed):
     samples = chan_samples(sims[variants[0]], main, tier, seed, os.path.join(outdir, 'samples'))
     cov = chan_coverage(main, sims[variants[0]], samples, prop)
     cov['determinism_audit_runs'] = det_runs
+    cov['edges_reached'] = dict(reached=main.get('edges_reached'),
+                                instrumented=main.get('num_guards'))
+    if tier == 'thorough':
+        anchors = []
+        for line in open(os.path.join(VERIF, 'properties.jsonl')):
+            pj = json.loads(line)
+            if pj['id'] == prop:
+                anchors = [f[len('src/draco/'):] for f in pj['anchors']['files']
+                           if f.startswith('src/draco/')]
+        rr = rejection_reach(sims[variants[0]], os.path.join(outdir, 'batch-' + variants[0]),
+                             anchors)
+        if rr:
+            cov['rejection_site_reach'] = rr
     cov['canaries'] = canaries
     cov['builds'] = variants
     if vg_stats is not None:
